@@ -199,6 +199,13 @@ Definition run_vc (cmd : string) (args : list string) : option (list string) :=
            | Ok a => [show_bool (h_goodc a); show_bool (h_sorted a); show_bool (h_nondeg a)]
            | _ => ["badoperand"] end
     | _ => None end
+  else if seq cmd "chyp2" then    (* the hypotheses of the difference theorem on a pair of operands *)
+    match args with
+    | [sa; sb] =>
+      Some match cparse false sa, cparse false sb with
+           | Ok a, Ok b => [show_bool (h_goodc a && h_goodc b && h_sorted a && h_sorted b && h_mutual a b)]
+           | _, _ => ["badoperand"] end
+    | _ => None end
   else if seq cmd "cpred" then
     match args with
     | [sa; sb] =>
